@@ -544,7 +544,8 @@ func (c08) Generate(rng *rand.Rand, tier string, st *Stats) []Case {
 						b, _ := xml.Marshal(c10packet("message", body))
 						op = []string{"send", "message", hx(body), hx(string(b)), s}
 					} else {
-						op = []string{"sendraw", hx(fmt.Sprintf("<presence id='p%d'/>", cnt)), s}
+						// raw strings are put on the wire as they are: also with printf verbs and escapes in them
+						op = []string{"sendraw", hx(fmt.Sprintf("<presence id='p%d'><status>100%% %%s %%d %%!C(x) \\n</status></presence>", cnt)), s}
 					}
 					rec(append(prefix, op), depth-1)
 				}
